@@ -7,6 +7,11 @@ def run(ctx):
     ctx.tlc_mc("MC_GroupCols", "MC_GroupCols.thorough.cfg" if ctx.thorough else "MC_GroupCols.quick.cfg", workers=8, timeout=1700, coverage=True)
     # A: TLC enumerates every unit-triangular 3x3 integer matrix with entries -1..1 and right-hand sides (quick: every 9th)
     path, objs = ctx.tlc_gen("Gen_Kernels", "Gen_Kernels.cfg", workers=1)
+    # ... and every 0/1 pattern on 3x4 for the block splitting (one thread and sixteen)
+    path2, objs2 = ctx.tlc_gen("Gen_DirSum", "Gen_DirSum.cfg", workers=1)
+    with open(path, "a") as f:
+        f.write(open(path2).read())
+    objs = objs + objs2
     trace = ctx.path("trace.ndjson")
     summ, _, _ = ctx.yv("c12", "record", "--seed", ctx.seed, "--tier", ctx.tier, "--in", path, "--out", trace, timeout=1800)
     rec = summ["record"]
